@@ -42,6 +42,7 @@ type cEvent struct {
 type cWorld struct {
 	mu       sync.Mutex
 	r        *rand.Rand
+	r2       *rand.Rand // second stream (features added later)
 	name     string
 	iface    *net.Interface
 	seg      *rsocks.Segment
@@ -134,6 +135,30 @@ func (w *cWorld) newLease() {
 	}
 	if r.Intn(2) == 0 {
 		li.mtu = uint16(576 + r.Intn(1000))
+	}
+	// values at the edges (drawn from the second stream so that the scripts of older seeds keep their shape)
+	if r2 := w.r2; r2 != nil && r2.Intn(3) == 0 {
+		switch r2.Intn(7) {
+		case 0:
+			li.mtu = []uint16{1, 68, 575, 576, 1500, 9000, 65535}[r2.Intn(7)]
+		case 1:
+			for i := 0; i < 2+r2.Intn(6); i++ {
+				li.routers = append(li.routers, w.srvIP+10+uint32(i))
+			}
+		case 2:
+			for i := 0; i < 3+r2.Intn(12); i++ {
+				li.dns = append(li.dns, 0x09090900+uint32(i))
+			}
+		case 3:
+			li.mask = [][]byte{{255, 255, 255, 255}, {255, 255, 255, 254}, {255, 255, 255, 252}, {128, 0, 0, 0}, {255, 255, 255}, {255, 255, 255, 0, 0}}[r2.Intn(6)]
+		case 4: // the address is the first or the last of its (class-default or given) subnet; or the server names itself
+			li.yiaddr = []uint32{0x0a000000, 0x0affffff, 0xc0a80100, 0xc0a801ff, w.srvIP}[r2.Intn(5)]
+		case 5:
+			li.domain = [][]byte{[]byte("example.org."), []byte("example.org\x00"), []byte("."), []byte("a..b"), {0}, []byte("xn--bcher-kva.example")}[r2.Intn(6)]
+		case 6:
+			li.lease = []uint32{60, 61, 62, 63, 64}[r2.Intn(5)]
+			li.t1, li.t2 = 0, 0
+		}
 	}
 	li.lease = []uint32{60, 61, 120, 600, 3600, 86400}[r.Intn(6)]
 	switch r.Intn(5) { // T1/T2: absent, consistent, inconsistent in several ways
@@ -271,6 +296,20 @@ func (w *cWorld) exchange(kind int, xid uint32, haveXid bool, t0 uint64, pre tim
 		w.decisiveAt = t0 + uint64(dt)
 		w.ended[xid] = t0 + uint64(dt)
 		sched(dt, func() { w.seg.Inject(rsocks.KindIP, pkt) })
+		if r2 := w.r2; r2 != nil && kind != 1 && r2.Intn(3) == 0 {
+			// after the accepted ACK: the same reply again, a NAK for the same transaction, an OFFER - all too late to matter
+			// (not after an OFFER: the selecting REQUEST continues that transaction)
+			var late []byte
+			switch r2.Intn(3) {
+			case 0:
+				late = pkt
+			case 1:
+				late = w.reply(6, xid, li)
+			case 2:
+				late = w.reply(2, xid, li)
+			}
+			sched(dt+ms(1+r2.Intn(150)), func() { w.seg.Inject(rsocks.KindIP, late) })
+		}
 	case outcome <= 8: // nothing acceptable arrives: the exchange runs into its deadline
 		junk()
 		w.record(hdr(2, 0), nil)
@@ -481,6 +520,9 @@ func runClientScript(t *testing.T, c *caseWriter, vl *violationLog, seedv int64,
 		w := &cWorld{r: r, name: name, croute: r.Intn(3) > 0, srvIP: 0x0a000001, srvMAC: []byte{2, 0xaa, 0, 0, 0, 1},
 			frames: map[uint32][]uint64{}, ended: map[uint32]uint64{}, maxIter: 6 + r.Intn(40), nakStorm: r.Intn(12) == 0}
 		w.vl16, w.seedv = vl, seedv
+		if seedv%2 == 1 {
+			w.r2 = rand.New(rand.NewSource(seedv ^ 0x5eed5eed))
+		}
 		if len(vl14) > 0 {
 			w.vl14 = vl14[0]
 		}
